@@ -11,7 +11,8 @@ package raftlog
 // that captures are deterministic). Everything else goes through Open / For / the
 // multiraft.Storage interface.
 //
-// Sections:
+// TestVerifC14 (below) runs the black-box open part first (c14_open_test.go, registered
+// through VerifC14OpenPart) and then the sections of this file:
 //   crash-seq    every history of exactly d Raft-valid calls on two scopes (slot/1 and the
 //                controller scope) of one DB on crashfs, from three starts (empty, warm cache,
 //                warm data + cold cache). Every mutating Pebble FS call is a crash point
@@ -389,7 +390,7 @@ func (w *c14cWorker) run(router *crashfs.Router, h c14cHistory, group bool, retr
 
 	// ---- start state (not crash-enumerated)
 	models := [2][]*c14model.Scope{{{}}, {{}}} // models[s][j] = scope s after j of its calls
-	calls := [2][]c14model.Call{}               // calls[s][j] = the (j+1)-th call of scope s
+	calls := [2][]c14model.Call{}              // calls[s][j] = the (j+1)-th call of scope s
 	var started, acked [2]atomic.Int64
 	var earlier [2][]*c14model.Scope // states inside the (acknowledged) preamble: only for classifying a loss
 	if h.start != "empty" {
